@@ -151,7 +151,8 @@ class Rig:
             NODE, start=start, k=k, extras=case.get("extras", [0]), qs=case.get("qs", "stay"),
             cw0=case.get("cw0", 0), supported=case.get("supported", 0), display=case.get("display0", 0),
             kmode=case.get("kmode", 0), layout=layout, tpdo_tt=tpdo_tt, rpdo_tt=rpdo_tt,
-            level=case.get("lvl", False), timer_only=thread == "free", evt=case.get("evt", 0))
+            level=case.get("lvl", False), timer_only=thread == "free", evt=case.get("evt", 0),
+            cw_latency=case.get("cw_latency", 0.0))
         self.drive.force_sw = force_sw
         self.drive.attach(self.hub)
         self.net, self.port = self.hub.attach("master")
@@ -170,6 +171,11 @@ class Rig:
             # will; the state time-outs keep canopen's values (0.4 s / 0.8 s)
             node.TIMEOUT_CHECK_TPDO = 0.001
             node.TIMEOUT_SWITCH_OP_MODE = 0.05
+        if case.get("cw_latency"):
+            # a drive that takes its time for every transition, but far less than the per-step limit:
+            # the limit for "no progress" (FINAL) is not a deadline for the whole multi-step change
+            node.TIMEOUT_SWITCH_STATE_SINGLE = 5.0
+            node.TIMEOUT_SWITCH_STATE_FINAL = 0.2
         node.nmt.state = "OPERATIONAL"
         if case.get("setup", "read") == "read" or layout in ("E", "F", "G", "H", "I"):
             try:
@@ -700,6 +706,11 @@ def showcase():
            "qs": "stay", "layout": "C", "setup": "manual"}
     yield {"fam": "pair", "tr": "free", "start": R.OE, "target": R.FAULT, "k": 0, "extras": [0xFFFF],
            "qs": "stay", "layout": "B", "setup": "read", "cw0": 0xF}
+    # a slow drive: every controlword takes 0.08 s, multi-step changes take longer than the
+    # no-progress limit (0.2 s) - each step is still far inside the per-step limit
+    for start, target in ((R.FAULT, R.OE), (R.SOD, R.OE), (R.SOD, R.QSA), (R.OE, R.RTSO)):
+        yield {"fam": "pair", "tr": "sdo", "start": start, "target": target, "k": 0, "extras": [0], "qs": "stay",
+               "layout": "none", "setup": "read", "od_pdo": False, "cw_latency": 0.08}
     yield {"fam": "decode", "sw": 0x5237, "via": "sdo"}
     yield {"fam": "decode", "sw": 0xFF5F, "via": "tpdo4"}
     yield {"fam": "mode", "tr": "sdo", "layout": "none", "mode": "HOMING", "supported": 0xA5000020,
